@@ -62,6 +62,8 @@ add('nested_oneof', [N(), N([['a', I(0)]], fails=['EA']), N([['a', I(0)]]), N([[
                      N([['a', I(3)]], fails=['EA']), N([['a', I(3)]]), N([['v', ['oneof', [4, 5]]], ['y', I(3)]]), N([['a', I(6)]])])
 add('oneof_shared_between_candidates', [N(), N([['a', I(0)]]), N([['a', I(0)]], fails=['EA']), N([['a', I(2)]]), N([['s', I(1)], ['x', I(3)]]),
                                         N([['s', I(1)]]), N([['v', ['oneof', [4, 5]]]]), N([['a', I(6)], ['b', I(1)]])])
+add('case_shared_with_candidate', [N(), N([['a', I(0)]], beh=['str', 'k']), N([['a', I(0)]], fails=['EA']), N([['a', I(0)]]), N([['a', I(2)]]),
+                                   N([['a', I(0)]]), N([['v', ['sw', 1, [['k', 2], ['o', 3]]]], ['w', ['oneof', [4, 5]]]])])
 # ---- recurrent subgraphs (tests/dag/recurrent_subgraph) ----
 add('rec_simple', [N(), N([['a', I(0)]]), N([['a', I(1)]], beh=['recur', 2]), N([['r', ['rec', 1, 2, 3]]])])
 add('rec_exhausted', [N(), N([['a', I(0)]]), N([['a', I(1)]], beh=['recur', 5]), N([['r', ['rec', 1, 2, 2]]])])
